@@ -20,7 +20,11 @@ def handlers : List (String × (Json → R Json)) := [
   ("graph_to_pcmci", Graph.hGraphToPcmci),
   ("round_trips", Graph.hRoundTrips),
   ("export_frame", Graph.hExportFrame),
-  ("export_pcmci", Graph.hExportPcmci)
+  ("export_pcmci", Graph.hExportPcmci),
+  ("knn", Knn.hKnn),
+  ("gauss_ratio", Gauss.hGaussRatio),
+  ("poisson_entropy", Poisson.hPoissonEntropy),
+  ("joint_entropy", Poisson.hJointEntropy)
 ]
 
 def handle (j : Json) : Json :=
